@@ -10,4 +10,5 @@ for m in spec/MC.tla spec/TraceStep.tla; do
 done
 rm -f /tmp/vf_sany.$$
 /venv/bin/python -c "import funtracks, sys; sys.path.insert(0, 'harness'); import core"
+python3 -m vf.prebuild quick
 echo "setup ok"
